@@ -91,21 +91,25 @@ fn x_cast5_rfc_vectors() {
 }
 
 // ---------------------------------------------------------------- round functions (macros of lib.rs)
-// (four lookups in 256 x 32-bit tables on each side: 494 s with CaDiCaL)
-// @ob name=c_cast5_f1 props=C09,C20 tier=thorough fn=cast5::f1 timeout=1800
+// (four lookups in 256 x 32-bit tables on each side: 494 s with CaDiCaL, under 1 s with z3 -- the SMT back end keeps the
+// tables as arrays (select over a store chain) instead of CBMC's 256 implications per lookup)
+// @ob name=c_cast5_f1 props=C09,C20 solver=z3 fn=cast5::f1 timeout=300
 #[kani::proof]
+#[kani::solver(z3)]
 fn c_cast5_f1() {
     let (d, m, r): (u32, u32, u8) = (kani::any(), kani::any(), kani::any());
     assert!(f1!(d, m, r) == bcref::cast5::f1(d, m, r));
 }
-// @ob name=c_cast5_f2 props=C09,C20 tier=thorough fn=cast5::f2 timeout=1800
+// @ob name=c_cast5_f2 props=C09,C20 solver=z3 fn=cast5::f2 timeout=300
 #[kani::proof]
+#[kani::solver(z3)]
 fn c_cast5_f2() {
     let (d, m, r): (u32, u32, u8) = (kani::any(), kani::any(), kani::any());
     assert!(f2!(d, m, r) == bcref::cast5::f2(d, m, r));
 }
-// @ob name=c_cast5_f3 props=C09,C20 tier=thorough fn=cast5::f3 timeout=1800
+// @ob name=c_cast5_f3 props=C09,C20 solver=z3 fn=cast5::f3 timeout=300
 #[kani::proof]
+#[kani::solver(z3)]
 fn c_cast5_f3() {
     let (d, m, r): (u32, u32, u8) = (kani::any(), kani::any(), kani::any());
     assert!(f3!(d, m, r) == bcref::cast5::f3(d, m, r));
@@ -151,10 +155,13 @@ pub fn spec_key_schedule(x: &mut [u32], _z: &mut [u32], k: &mut [u32]) {
     }
 }
 
-// the long straight-line function against the RFC's byte-indexed description, every x
-// (NOT discharged in the contributing session -- see the note at the top of this file: not registered)
-// @candidate name=c_cast5_schedule_fn props=C09,C20 tier=thorough fn=cast5::schedule::key_schedule timeout=3600
+// the long straight-line function against the RFC's byte-indexed description, every x (160 lookups per side).
+// Both sides are XORs of S-box words selected by byte extractions, which the SMT solver normalises to the same terms:
+// z3 3.5 s (cvc5 4 s), every SAT back end > 1 h.  Sanity: with `k[15] == ks[15] ^ 1` and one symbolic key byte the
+// obligation is refuted in 4 s.
+// @ob name=c_cast5_schedule_fn props=C09,C20 solver=z3 fn=cast5::schedule::key_schedule timeout=300
 #[kani::proof]
+#[kani::solver(z3)]
 #[kani::unwind(18)]
 fn c_cast5_schedule_fn() {
     let x0: [u32; 4] = kani::any();
